@@ -8,7 +8,8 @@ MC = "model_checking"
 trust_sh = ("trusted: RefTSH (reference AST evaluator) and ShSem (semantics of the emitted Bash subset, calibrated against "
             "/bin/bash by `verif selftest`), intrinsic models of fmt/strings/strconv/regexp, z3 4.8.12; program shapes are "
             "enumerated (listed in evidence), values/bytes on each shape are symbolic and decided by the solver; "
-            "counterexamples are replayed on the native transpiler and the real bash before being reported")
+            "counterexamples are replayed on the native transpiler and the real bash before being reported; a path the engine or "
+            "ShSem cannot interpret (e.g. after a refactoring) is decided by concrete native probes of that path and counted as such")
 tech_sh = "SSA symbolic execution + ShSem/RefTSH equivalence decided by z3 per path"
 
 checks = {}
@@ -16,14 +17,16 @@ checks = {}
 checks["C01"] = (TV,
     "real front-end + Bash back-end executed symbolically from SSA on scalar program shapes (symbolic 64-bit literals, "
     "operator choices, neutral string bytes); the emitted script is interpreted by ShSem and compared, for all values on "
-    "each path, with RefTSH's evaluation of the same AST (stdout, exit status, stderr); unsat on every path within the shapes/bounds",
+    "each path, with RefTSH's evaluation of the same AST (stdout, exit status, stderr); unsat on every path within the shapes/bounds; "
+    "curated shapes plus 40 (quick) / 600 (thorough) programs from a typed generator (seeded by VERIF_SEED)",
     trust_sh, tech_sh)
 checks["C02"] = (TV,
     "as C01 on function/frame shapes: by-value/by-reference parameters, name reuse across frames, global writes from "
-    "functions, multi-value returns, nested calls, simultaneous assignment", trust_sh, tech_sh)
+    "functions, multi-value returns (also into mixed global/local targets), nested calls (also as statement), empty-string arguments, "
+    "simultaneous assignment in every operand form; plus 30 (quick) / 500 (thorough) generated programs with functions", trust_sh, tech_sh)
 checks["C03"] = (TV,
     "as C01 on slice/string shapes: growth with symbolic indices 0..12, aliasing, range, copy, substrings with symbolic "
-    "bounds and symbolic string bytes", trust_sh, tech_sh)
+    "bounds and symbolic string bytes, copy into global/local/parameter destinations inside functions, nested range over non-variable operands", trust_sh, tech_sh)
 checks["C04"] = (TV,
     "as C02 with tracer functions at every operand position; the printed trace must equal the reference's left-to-right, "
     "exactly-once, eager order for all steering values", trust_sh,
@@ -37,7 +40,7 @@ checks["C11"] = (MC,
     "SSA symbolic execution + SMT equivalence against a reference lexer, bounded input length")
 checks["C12"] = (MC,
     "metamorphic check executed in the SSA executor: for gap positions of seed programs (all gaps of hand-written "
-    "statement-form seeds, sampled gaps of the repository's test programs) the layout is replaced from menus of "
+    "statement-form seeds incl. multi-line raw string literals, sampled gaps of the repository's test programs) the layout is replaced from menus of "
     "blanks/tabs/comments/blank lines/CRLF/final-newline variants; acceptance and emitted bytes must equal those of the "
     "original layout for both targets",
     "trusted: host-side token splitter that defines token-preserving re-layouts; differences are re-confirmed on the "
@@ -46,14 +49,15 @@ checks["C12"] = (MC,
 checks["C13"] = (MC,
     "bounded symbolic execution of Transpile for both targets: main file of n fully symbolic bytes (n<=2 quick, n<=3 "
     "thorough), token positions of the repository's test programs replaced by a symbolic byte or a menu lexeme, all import "
-    "graphs over three files incl. cycles; assertion: no Go panic, instruction/depth budget not exceeded, result is "
+    "graphs over three files incl. cycles, 41 statement forms x 10 contexts (jumps, bare expressions, value-less calls as operands), "
+    "call graphs with exponentially many call paths; assertion: no Go panic, instruction/depth budget not exceeded, result is "
     "(script,nil) or (\"\",non-empty error)",
     "trusted: intrinsic models, virtual file system; hang candidates and panics are reproduced on the native build under a "
     "watchdog before being reported; outside: longer symbolic files, double-token edits (thorough samples more positions)",
     "SSA symbolic execution with panic capture and budgets; z3 / byte-domain decision for branch feasibility")
 checks["C14"] = (MC,
-    "bounded exploration in the SSA executor of call histories (1..2 quick, 1..3 thorough) on one transpiler object over 4 "
-    "programs x 2 targets, 3 directory spellings and every permutation of every map range; each call's text must equal, "
+    "bounded exploration in the SSA executor of call histories (1..2 quick, 1..3 thorough) on one transpiler object over 6 "
+    "programs (one uses every statement form of the language) x 2 targets, 3 directory spellings and every permutation of every map range; each call's text must equal, "
     "for all values of the symbolic integer literals, the text of the same call alone at the canonical location; plus "
     "native repetition/relocation/fresh-process runs",
     "trusted: map iteration order is the only process-level nondeterminism reachable (any other nondeterministic stdlib "
@@ -98,18 +102,19 @@ EXTRA_CHECKS["C16"] = (MC,
     "as emitted); issues are re-checked on the native build's output; outside: programs not expressible with the menu "
     "(2 slots quick / 3 thorough)",
     "SSA execution with nondeterministic construct choice; structural assertions on the emitted scripts")
-EXTRA_CHECKS["C09"] = (MC,
+EXTRA_CHECKS["C09"] = (TV,
     "as C01 on multi-file programs: the real import/link/clean code is executed symbolically on import graphs (single, "
-    "two files with top-level code, diamond, chain, repeated alias, std + local, equal names, imported globals), every "
+    "two files with top-level code, diamond with shared state, chain, repeated alias, std + local, equal names, imported globals used in nested top-level blocks, equal import strings in two directories, one file under two import strings), every "
     "imported file once with a hash prefix starting with a letter and once with a digit (sha256 stubbed per class); the "
     "emitted script under ShSem must equal the reference module composition for all symbolic arguments; illegal uses "
     "(private, undefined, unknown alias, transitive) must be rejected",
     trust_sh + "; counterexamples are replayed natively with a comment nonce that gives the real SHA-256 prefix the same class",
     tech_sh)
 EXTRA_CHECKS["C10"] = (MC,
-    "the real pipeline is executed symbolically with one user identifier (7 roles) spelled by 1..4 (quick) / 1..5 "
+    "the real pipeline is executed symbolically with one user identifier (12 roles) spelled by 1..4 (quick) / 1..5 "
     "(thorough) symbolic bytes; on every accepted path z3 is asked for each spelling under which a name derived from "
-    "the identifier equals another word of the emitted script or a name the shell owns; each spelling found is run "
+    "the identifier equals another word of the emitted script or a name the shell owns, or differs from another identifier "
+    "of the program only in letter case; each spelling found is run "
     "against a neutral spelling on the real bash; behaviour-changing spellings must be in the known list",
     "trusted: behaviour can only change through a coincidence of names (capture); list of shell-owned names in c10.go; "
     "Bash only, Batch case folding not claimed; longer identifiers outside",
@@ -137,8 +142,9 @@ EXTRA_CHECKS["C06"] = (MC,
     "SSA symbolic execution with symbolic type lexemes; z3 decides accepted <=> expected per path")
 EXTRA_CHECKS["C07"] = (MC,
     "symbolic execution of the parser on a 14-slot block-structure template: every (definition slot, use slot) and "
-    "(definition, definition) pair with one-byte symbolic names, every placement of break/continue/return/func, plus "
-    "fixed programs on parameters/function order/fall-off-end; assertion decided by z3 per path: accepted <=> the block "
+    "(definition, definition) pair with one-byte symbolic names, every placement of break/continue/return/func, "
+    "fixed programs on parameters/function order/fall-off-end, and the import boundary (a function of an imported file "
+    "whose name is 1..3 symbolic bytes, called through the alias: legal iff the first byte is upper case); assertion decided by z3 per path: accepted <=> the block "
     "model says the program is legal for these names",
     "trusted: the block-visibility model of the template as expected verdict; violations are re-run natively; outside: "
     "other block structures, names longer than one byte, break inside switch (unspecified)",
@@ -146,9 +152,9 @@ EXTRA_CHECKS["C07"] = (MC,
 EXTRA_CHECKS["C19"] = (MC,
     "symbolic execution of main.main/parseOptions over os.Args built from option/value menus in both orders with short "
     "or long flags, one flag spelled by two symbolic bytes, noise options and trailing singletons, on a virtual file "
-    "system with accepted/rejected/invalid inputs and stale outputs; assertions: on normal return exactly D/<stem>.<ext> "
+    "system with accepted/rejected/invalid inputs (one imports a file with top-level state) and long stale outputs; assertions: on normal return exactly D/<stem>.<ext> "
     "per target equals (for all values of the program's symbolic literal) the library result for a fresh converter; on "
-    "panic no new/changed file for the failing target; input never modified",
+    "panic or os.Exit(n>0) no new/changed file for the failing target; exit status 0 only with complete, valid options; input never modified",
     "trusted: virtual file system and os/filepath models; candidates are re-run with the natively built tsh binary; "
     "outside: more than 2 (quick) / 3 (thorough) -t options, write failures",
     "SSA symbolic execution of the command's main with symbolic argument bytes; z3 decides flag spellings and output equality")
